@@ -105,6 +105,30 @@ type Exec struct {
 	callSeq            int
 	aborted            bool
 	saved              map[string][]string // labelled results of version steps
+	inmem              bool                // tables without s3_bucket: the process-wide in-memory bucket, proxied (C19)
+}
+
+type inmemEntry struct {
+	st *Store
+	id string
+}
+
+var inmemReg = map[string]inmemEntry{} // s3_prefix spelling -> harness client (under storesMu)
+
+// inmemPrefix gives client id its own spelling of the table prefix ("p", "p/", "/p", "/p/" name the same path), so
+// that the OpenKV hook can tell the connections apart although they share the in-memory bucket.
+func (e *Exec) inmemPrefix(id string) string {
+	n := 0
+	for _, ch := range id {
+		if ch >= '0' && ch <= '9' {
+			n = n*10 + int(ch-'0')
+		}
+	}
+	sp := []string{e.prefix, e.prefix + "/", "/" + e.prefix, "/" + e.prefix + "/"}[n%4]
+	storesMu.Lock()
+	inmemReg[sp] = inmemEntry{e.st, id}
+	storesMu.Unlock()
+	return sp
 }
 
 var (
@@ -119,6 +143,12 @@ func installHooks() {
 		st := stores[o.Bucket]
 		storesMu.Unlock()
 		if st == nil {
+			storesMu.Lock()
+			ent, ok := inmemReg[o.Prefix]
+			storesMu.Unlock()
+			if ok {
+				return &Proxy{cl: ent.st.Client(ent.id), under: c}
+			}
 			return c
 		}
 		return st.Client(strings.TrimPrefix(o.Endpoint, "http://"))
@@ -906,6 +936,8 @@ func (e *Exec) runStep(s Step) {
 		e.doOpen(s)
 	case "refresh":
 		e.doRefresh(s)
+	case "create":
+		e.doCreate(s)
 	case "stmt":
 		e.doStmt(s)
 	case "begin", "commit", "rollback":
@@ -1137,7 +1169,11 @@ func (e *Exec) createSQL(c *cli, s Step, mode string) string {
 		args = append(args, "readonly")
 	}
 	args = append(args, "columns='"+strings.ReplaceAll(e.colspec, "'", "''")+"'")
-	args = append(args, "s3_bucket='"+e.st.name+"'", "s3_endpoint='http://"+c.id+"'", "s3_prefix='"+e.prefix+"'")
+	if e.inmem {
+		args = append(args, "s3_prefix='"+e.inmemPrefix(c.id)+"'")
+	} else {
+		args = append(args, "s3_bucket='"+e.st.name+"'", "s3_endpoint='http://"+c.id+"'", "s3_prefix='"+e.prefix+"'")
+	}
 	epn := s.num("epn", e.epn)
 	if epn > 0 {
 		args = append(args, fmt.Sprintf("entries_per_node=%d", epn))
